@@ -48,6 +48,13 @@ def build_msgs(variant: int):
     oid_msg = OriginatingTransactionId(oid).to_generic_msg_to_user_tlv()
     if variant == 1:
         return [plain], None
+    if variant in (7, 8):
+        # the shortest legal originating id (1-byte entity id, 1-byte sequence number: value length 8) and the longest
+        # (8 + 8 bytes)
+        from spacepackets.util import ByteFieldU64
+
+        o2 = TransactionId(ByteFieldU8(5), ByteFieldU8(77)) if variant == 7 else TransactionId(ByteFieldU64(5), ByteFieldU64(77))
+        return [OriginatingTransactionId(o2).to_generic_msg_to_user_tlv(), plain], (5, 77)
     if variant == 2:
         return [oid_msg, plain], (5, 77)
     if variant == 3:
